@@ -281,6 +281,12 @@ def sym_getitem(interp, obj, idx):
             return obj[slice(parts[0], parts[1], idx.step)]
         raise Unsupported(f"subscript of {type(obj).__name__} with symbolic {type(idx).__name__}")
     if _is_ndarray(obj):
+        if obj.ndim == 1 and isinstance(idx, Sym):
+            n = len(obj)
+            c = concretize_int(idx, -n, n - 1)
+            if c is None:
+                raise IndexError("index out of bounds")
+            return obj[c]
         if obj.ndim == 1 and isinstance(idx, slice) and not isinstance(idx.step, Sym):
             n = len(obj)
             parts = []
